@@ -198,7 +198,19 @@ pub fn next_op(rng: &mut Rng, cfg: &Cfg, model: &[Vec<(u32, u64)>], step: usize)
         }
         1 => {
             let pos = pos_any(rng);
-            Op::InsertAt { slot, pos, value: value_for(rng, cfg, m, pos) }
+            if cfg.flavour != Flavour::Sorted && rng.chance(1, 5) {
+                // an item that already carries a pending modification (fresh, or the one remove_at
+                // just returned): assign (a = 0) or add (a = 1) or a general affine map
+                let (a, b) = match rng.below(3) {
+                    0 => (0, rng.below(1000)),
+                    1 => (1, 1 + rng.below(50)),
+                    _ => (2 + rng.below(3), rng.below(7)),
+                };
+                let from = if len > 0 && rng.chance(1, 2) { Some(rng.usize_below(len)) } else { None };
+                Op::TaggedInsert { slot, from, dst: if rng.chance(2, 3) { slot } else { rng.usize_below(cfg.slots) }, dst_pos: pos, how: rng.below(3) as u8, value: rng.below(1000), a, b }
+            } else {
+                Op::InsertAt { slot, pos, value: value_for(rng, cfg, m, pos) }
+            }
         }
         2 => {
             let pos = pos_any(rng);
